@@ -229,9 +229,9 @@ func (g *gen) clauses(b, d int) []*E {
 	for i := 0; i < n; i++ {
 		if i == 0 || g.r.Bool() {
 			h := parts[i] / 2
-			cl = append(cl, &E{K: KForClause, X: g.loopVars(h, d+1), Y: g.sub(parts[i]-h, d+1, ctxPrec(0))})
+			cl = append(cl, &E{K: KForClause, X: g.loopVars(h, d+1), Y: g.operand(parts[i]-h, d+1, ctxPrec(0), opOr)})
 		} else {
-			cl = append(cl, &E{K: KIfClause, X: g.sub(parts[i], d+1, ctxNoCond)})
+			cl = append(cl, &E{K: KIfClause, X: g.operand(parts[i], d+1, ctxNoCond, opOr)})
 		}
 	}
 	return cl
@@ -242,23 +242,34 @@ func (g *gen) dictEntry(b, d int) *E {
 	return &E{K: KDictEntry, X: g.sub(h, d+1, ctxTest), Y: g.sub(b-h, d+1, ctxTest)}
 }
 
-// binary makes a binary-operator node (b nodes below it); with near != nil
-// the operator is biased to the precedence levels next to near's, so that
-// unparenthesised neighbours in the precedence table meet often.
-func (g *gen) binary(b, d int, near *OpInfo) *E {
-	op := hx.Pick(g.r, binaryOps)
+// pickOp draws a binary operator: precedence level first (so every level is
+// as frequent as the crowded comparison level), then an operator of the level.
+func (g *gen) pickOp(near *OpInfo) *OpInfo {
+	lv := g.r.Intn(10)
 	if near != nil && g.r.Intn(3) != 0 {
 		np := near.Prec
 		if near == opNot {
 			np = lvNot
 		}
-		for i := 0; i < 20; i++ {
-			if dd := op.Prec - np; dd >= -1 && dd <= 1 {
-				break
-			}
-			op = hx.Pick(g.r, binaryOps)
+		lv = np - 1 + g.r.Intn(3)
+	}
+	var ops []*OpInfo
+	for _, o := range binaryOps {
+		if o.Prec == lv {
+			ops = append(ops, o)
 		}
 	}
+	if len(ops) == 0 {
+		return hx.Pick(g.r, binaryOps)
+	}
+	return hx.Pick(g.r, ops)
+}
+
+// binary makes a binary-operator node (b nodes below it); with near != nil
+// the operator is biased to the precedence levels next to near's, so that
+// unparenthesised neighbours in the precedence table meet often.
+func (g *gen) binary(b, d int, near *OpInfo) *E {
+	op := g.pickOp(near)
 	h := g.r.Intn(b + 1)
 	lmin := op.Prec
 	if op.Prec == lvCmp {
